@@ -322,7 +322,7 @@ def image_patch_cases(ctx, d, lines, impl):
         n = [rng.randint(1, 4) for _ in range(2)]
         rel = rng.choice([0, 0.125, 0.25, 0.5])
         p = call(d.Patches, img, n, rel_overlap=rel)
-        C = 2 if r["vector"] else 1
+        C = "1 2" if r["vector"] else "0"
         root = c02.root_tokens(r, origin)
         ctx.count(("image-patch", kind, json.dumps(r), n, rel))
         if kind in ("series", "3d"):
